@@ -536,8 +536,9 @@ class RerunScheduler(driver.Scheduler):
     def outcome_for(self, a):
         x = a["x"]
         shape = (self.prog["tasks"].get(a["task"]) or {}).get("shape", "token")
-        forced = (self.forced_all is not None and a["task"] in self.forced_all) or \
-                 (self.forced_after is not None and a["task"] in self.forced_after and x.xid >= self.floor)
+        ident = (a["task"], driver.route_identity(self.world, x.route))
+        forced = (self.forced_all is not None and ident in self.forced_all) or \
+                 (self.forced_after is not None and ident in self.forced_after and x.xid >= self.floor)
         if forced:
             _, result = self.outcome(a["task"], 1, 1, a["item"], shape, self.route_key(x))
             return "succeeded", result
@@ -591,7 +592,7 @@ class RerunScheduler(driver.Scheduler):
         ok = self.do(["rerun", reqs])
         self.rerun_accepted = bool(ok)
         if ok:
-            self.forced_after = set(x.task for x in (w.rerun_selected or []))
+            self.forced_after = set((x.task, driver.route_identity(w, x.route)) for x in (w.rerun_selected or []))
             n = self.do(["dispatch"])
             g = 0
             while n and g < 20:
@@ -659,12 +660,12 @@ class C17(object):
         if res["nontrivial"]:
             res["sample"] = {"tasks": len(prog["tasks"]), "features": sorted(prog["_features"]), "plan": plan,
                              "requests": sm.rerun_reqs, "status_before": sm.status_before, "final_status": wm.status,
-                             "re_executed": sorted(sm.forced_after or []), "ops": sm.ops[-25:]}
+                             "re_executed": sorted(t for t, _ in (sm.forced_after or [])), "ops": sm.ops[-25:]}
         # convergence twin
         forced = sm.forced_after or set()
         if plan in ("default", "explicit_failed") and sm.cause_clean and forced and wm.status in TERMINAL_WF \
-                and not wm.retry_cut and not any(wm.ledger.retry_policy(t) for t in forced) \
-                and not any(lang.in_cycle(prog, t) for t in forced):
+                and not wm.retry_cut and not any(wm.ledger.retry_policy(t) for t, _ in forced) \
+                and not any(lang.in_cycle(prog, t) for t, _ in forced):
             sk = RerunScheduler(seed, dict(profile, prog=prog), "none", forced_all=forced)
             try:
                 wk = sk.run()
